@@ -7,6 +7,17 @@ EXTENDS Crash
 
 EmptyDB == -1   \* a .cfg cannot hold a negative number: InitH <- EmptyDB
 
+\* every action is taken (TLC's -coverage is not usable here: its cost accounting of the recursive
+\* filter-initialisation operators exhausts the heap even on the smallest configuration)
+NeverStore == act.name # "Store"
+NeverRevert == act.name # "Revert"
+NeverSetL1 == act.name # "SetL1"
+NeverSnapshot == act.name # "Snapshot"
+NeverPrune == act.name # "Prune"
+NeverPruneStep == act.name # "PruneStep"
+NeverRestart == act.name # "Restart"
+NeverQuery == act.name # "Query"
+NeverInitPut == ~(act.name \in {"Store", "Revert", "Query", "Snapshot"} /\ res.muts >= 2)
 NeverFailedWrite == res.kind # "failed"
 NeverCrashedMidPrune == ~(res.kind = "crashed" /\ act.name = "PruneStep")
 NeverCrossedBack == ~(act.name = "Revert" /\ res.kind = "ok" /\ act.n = Boundary - 1 /\ mem.rf.w = 0)
